@@ -122,6 +122,12 @@ void StructAssignmentManager::assign_struct_member(
             }
             assign_value = 0;
         }
+        // 型範囲チェック（通常の変数代入と同じ規則。ポインタ型はスキップ）
+        if (!member_var->is_pointer) {
+            interpreter_->type_manager_->check_type_range(
+                member_var->type, assign_value, target_full_name,
+                member_var->is_unsigned);
+        }
         member_var->value = assign_value;
         if (is_union_member) {
             member_var->current_type =
@@ -335,6 +341,13 @@ void StructAssignmentManager::assign_struct_member(
                       "Unsigned struct member %s.%s assigned negative value ");
         }
         member_value = 0;
+    }
+
+    // 型範囲チェック（通常の変数代入と同じ規則。ポインタ型はスキップ）
+    if (!member_var->is_pointer) {
+        interpreter_->type_manager_->check_type_range(
+            member_var->type, member_value, target_full_name,
+            member_var->is_unsigned);
     }
 
     member_var->value = member_value;
